@@ -245,7 +245,7 @@ Fixpoint widen_re (r : re) : re :=
   | RAlt a b => RAlt (widen_re a) (widen_re b)
   | RRep x mn mx g => RRep (widen_re x) mn mx g
   | REps => REps
-  | RAssert a => RAssert a
+  | RAssert a => RAssert (AWide a)
   end.
 Definition vre (w : bool) (r : re) : re := if w then widen_re r else r.
 
